@@ -57,8 +57,14 @@ func HC09_Depth() {
 	pan, _ = vCatch(func() { qs[0].Close() })
 	vAssert(pan, "closing a query twice panics")
 	vAssert(!x.w.IsLocked(), "a failed Close does not lock the world")
-	// all lock bits are usable again
-	again := [3]int{1, depth, lim}[vChoice("again", 3)]
+	// optionally reset the world in between (locks are reset too)
+	if vChoice("reset", 2) == 1 {
+		x.opReset()
+		x.opNewEntity(1)
+	}
+	// all lock bits are usable again, each open query holds its own lock
+	again := [4]int{1, 2, depth + 1, lim}[vChoice("again", 4)]
+	vAssume(again <= lim)
 	for i := 0; i < again; i++ {
 		pan, _ := vCatch(func() { qs[i] = x.w.Query(&m) })
 		vAssert(!pan, "lock bits are reusable after release")
@@ -66,8 +72,17 @@ func HC09_Depth() {
 			break
 		}
 	}
-	for i := 0; i < again; i++ {
-		qs[i].Close()
+	if vChoice("order2", 2) == 0 {
+		for i := again - 1; i >= 0; i-- {
+			qs[i].Close()
+			vAssert(x.w.IsLocked() == (i > 0), "world stays locked until the last query is closed")
+		}
+	} else {
+		for i := 0; i < again; i++ {
+			for qs[i].Next() {
+			}
+			vAssert(x.w.IsLocked() == (i < again-1), "world stays locked until the last query is exhausted")
+		}
 	}
 	vAssert(!x.w.IsLocked(), "world is unlocked at the end")
 	x.opNewEntity(1)
